@@ -143,7 +143,7 @@ def shrink_dims(lines, test, budget=120):
         vals = set()
         for l in ls:
             w = l.split()
-            if w and w[0] == "mat" and len(w) >= 4:
+            if w and w[0] in ("mat", "wmat") and len(w) >= 4:
                 vals.update([int(w[2]), int(w[3])])
             elif w and w[0] == "perm" and len(w) >= 3:
                 vals.add(int(w[2]))
@@ -153,7 +153,7 @@ def shrink_dims(lines, test, budget=120):
         out = []
         for l in ls:
             w = l.split()
-            if w and w[0] == "mat" and len(w) >= 4:
+            if w and w[0] in ("mat", "wmat") and len(w) >= 4:
                 if int(w[2]) == old: w[2] = str(new)
                 if int(w[3]) == old: w[3] = str(new)
                 out.append(" ".join(w))
